@@ -260,7 +260,8 @@ def run_session(v, built, mdefs, logon_d, logon_a, reply, sends, bad_sends, hb_w
             await vloop.turns(1)
 
     try:
-        loop.run(main())
+        with fc.time_limit(60):
+            loop.run(main())
     except Exception as e:  # noqa
         res['error'] = f'{err_name(e)}: {e!r}'[:300]
     finally:
